@@ -8,7 +8,7 @@
 //! Detection without reading the freed data: a global allocator that never reuses memory and
 //! records every freed range; the address MemoRef::lookup returns is looked up in that record.
 //! Exit 1 + "DIFFERENT: ..." = the reference handed out points into freed memory; exit 0 = not.
-//! usage: pico_intern_dangling [history]   (default: pick_b pick_a collect pick_a)
+//! usage: pico_intern_dangling [<capacity>|default <history..>]   (no arguments: the two recorded histories)
 use std::alloc::{GlobalAlloc, Layout, System};
 use std::sync::atomic::{AtomicUsize, Ordering};
 
@@ -50,8 +50,22 @@ fn pick_a(db: &TestDatabase, table: SourceId<Table>) -> MemoRef<Row> { db.intern
 fn pick_b(db: &TestDatabase, table: SourceId<Table>) -> MemoRef<Row> { db.intern_ref(&rows(db, table)[0]) }
 
 fn main() {
-    let hist: Vec<String> = { let a: Vec<String> = std::env::args().skip(1).collect(); if a.is_empty() { ["pick_b", "pick_a", "collect", "pick_a"].iter().map(|s| s.to_string()).collect() } else { a } };
-    let mut db = TestDatabase { storage: Storage::new_with_capacity(std::num::NonZeroUsize::new(1).unwrap()) };
+    let args: Vec<String> = std::env::args().skip(1).collect();
+    if args.is_empty() {
+        // the two recorded histories: eviction from a cache of one, and - with the DEFAULT cache -
+        // a write to the first owner's table followed by its re-execution and a collection
+        run(Some(1), &["pick_b", "pick_a", "collect", "pick_a"].map(String::from));
+        run(None, &["pick_b", "pick_a", "set_b", "pick_b", "collect", "pick_a"].map(String::from));
+    } else {
+        let cap = if args[0] == "default" { None } else { Some(args[0].parse().expect("capacity or `default`")) };
+        run(cap, &args[1..]);
+    }
+}
+fn run(cap: Option<usize>, hist: &[String]) {
+    let mut db = match cap {
+        Some(c) => TestDatabase { storage: Storage::new_with_capacity(std::num::NonZeroUsize::new(c).unwrap()) },
+        None => TestDatabase { storage: Storage::new() },
+    };
     let ta = db.set(Table { key: "a", rows: vec![Row { name: "shared".into() }, Row { name: "a2".into() }] });
     let tb = db.set(Table { key: "b", rows: vec![Row { name: "shared".into() }, Row { name: "b2".into() }] });
     for (i, step) in hist.iter().enumerate() {
@@ -59,12 +73,13 @@ fn main() {
             "pick_a" => Some(pick_a(&db, ta).lookup(&db)),
             "pick_b" => Some(pick_b(&db, tb).lookup(&db)),
             "collect" => { db.run_garbage_collection(); None }
+            "set_b" => { db.set(Table { key: "b", rows: vec![Row { name: "other".into() }, Row { name: "b2".into() }] }); None }
             other => panic!("unknown step {other}"),
         };
         if let Some(r) = r {
             let addr = r as *const Row as usize;
             if is_freed(addr) {
-                println!("DIFFERENT: history {hist:?} (cache of 1 recent top-level call; tables a and b both start with the row \"shared\"): at step {} MemoRef::lookup hands out a reference to {addr:#x}, which lies in memory freed by the collection (the rows of the other table)", i + 1);
+                println!("DIFFERENT: history {hist:?} ({}; tables a and b both start with the row \"shared\"): at step {} MemoRef::lookup hands out a reference to {addr:#x}, which lies in memory freed by the collection (the rows of the other table)", match cap { Some(c) => format!("cache of {c} recent top-level call(s)"), None => "default cache".to_string() }, i + 1);
                 std::process::exit(1);
             }
         }
